@@ -13,7 +13,8 @@ import time
 from . import build, props
 
 VERIF = build.VERIF
-EVIDENCE = os.path.join(VERIF, "evidence")
+# VERIF_EVIDENCE_DIR: sensitivity runs (tools/mutant_run.py) write their evidence and replay files elsewhere
+EVIDENCE = os.environ.get("VERIF_EVIDENCE_DIR") or os.path.join(VERIF, "evidence")
 REPLAYS = os.path.join(EVIDENCE, "replays")
 FINDINGS = os.environ.get("VERIF_FINDINGS", os.path.join(VERIF, "KNOWN_FINDINGS.txt"))  # the override exists for testing the mechanism only
 
